@@ -65,3 +65,24 @@ Theorem c07_ems_required :
   (forall s k kf h v su e, sv_require_ems s = true -> server_client_hello s k kf h = Ok (AccLegacy v su e) -> e = true).
 Proof. exact ems_required. Qed.
 Print Assumptions c07_ems_required.
+
+(* after ANY history of matrixSslSetCipherSuiteEnabledStatus calls (per session with its slot reuse, holes and the
+   SSL_MAX_DISABLED_CIPHERS limit, and globally), a suite whose last successful operation was a disable is refused by
+   sslGetCipherSpec and never chosen by the server; for the global list "refused iff currently disabled" *)
+Theorem c07_disabled_history : forall ops id server supp active k,
+  id <> 0 ->
+  (cur_disabled false id (combine ops (snd (run_ops dinit ops))) false = true \/
+   cur_disabled true id (combine ops (snd (run_ops dinit ops))) false = true ->
+     get_cipher_spec (scfg_after server supp active (fst (run_ops dinit ops))) k id = None /\
+     forall kf suites s, choose_suite (scfg_after server supp active (fst (run_ops dinit ops))) k kf suites = Some s -> s_id s <> id) /\
+  (mem id (d_global (fst (run_ops dinit ops))) = true <-> cur_disabled true id (combine ops (snd (run_ops dinit ops))) false = true).
+Proof. exact disabled_history_sound. Qed.
+Print Assumptions c07_disabled_history.
+
+(* per-session list: "on the list iff currently disabled" for histories that never disable a suite already on the list.
+   PARTIAL: without that hypothesis the "only if" direction fails (NegProofs.reenable_duplicate_witness: a re-disable
+   can write a second copy into a hole, the next enable removes only the first) - the suite stays refused: fails closed *)
+Theorem c07_disabled_history_iff_partial : forall ops id, id <> 0 -> no_redundant dinit ops = true ->
+  (mem id (d_slots (fst (run_ops dinit ops))) = true <-> cur_disabled false id (combine ops (snd (run_ops dinit ops))) false = true).
+Proof. exact disabled_history_iff_partial. Qed.
+Print Assumptions c07_disabled_history_iff_partial.
